@@ -509,6 +509,7 @@ class Parser:
 
     def parse_function_extension(self, stream: TokenStream) -> Expression:
         function_arguments: List[Expression] = []
+        grouped_arguments: List[int] = []
         tok = stream.next_token()
 
         while stream.current.type_ != TokenType.RPAREN:
@@ -520,15 +521,19 @@ class Parser:
                     token=stream.current,
                 ) from err
 
+            grouped = stream.current.type_ == TokenType.LPAREN
             expr = func(stream)
 
             # The argument could be a comparison or logical expression
             peek_kind = stream.peek.type_
             while peek_kind in self.BINARY_OPERATORS:
+                grouped = False
                 stream.next_token()
                 expr = self.parse_infix_expression(stream, expr)
                 peek_kind = stream.peek.type_
 
+            if grouped:
+                grouped_arguments.append(len(function_arguments))
             function_arguments.append(expr)
 
             if stream.peek.type_ != TokenType.RPAREN:
@@ -538,13 +543,23 @@ class Parser:
 
             stream.next_token()
 
-        return FunctionExtension(
-            token=tok,
-            name=tok.value,
-            args=self.env.validate_function_extension_signature(
-                tok, function_arguments
-            ),
-        )
+        args = self.env.validate_function_extension_signature(tok, function_arguments)
+
+        # A parenthesized argument is a logical expression, whatever it contains.
+        arg_types = getattr(self.env.function_extensions[tok.value], "arg_types", None)
+        for idx in grouped_arguments:
+            if arg_types is not None and arg_types[idx] != ExpressionType.LOGICAL:
+                expected = (
+                    "ValueType"
+                    if arg_types[idx] == ExpressionType.VALUE
+                    else "NodesType"
+                )
+                raise JSONPathTypeError(
+                    f"{tok.value}() argument {idx} must be of {expected}",
+                    token=tok,
+                )
+
+        return FunctionExtension(token=tok, name=tok.value, args=args)
 
     def parse_filter_expression(
         self, stream: TokenStream, precedence: int = PRECEDENCE_LOWEST
